@@ -23,7 +23,7 @@ theorem readDBI_raw_self {c : Cfg} {w : W} {name : Bytes} {msg : DbiMsg}
     (h : readDBI c w name name true = .ok msg) :
     ∃ d, findDbi w.dbis name = some d ∧ ¬ (isDupSort d.flags = true ∧ ¬ c.hack = true) ∧
       msg.entries = rawEntries d.kvs := by
-  obtain ⟨d, fl, hd, hfl, ht⟩ := readDBI_ok h
+  obtain ⟨d, fl, hd, hfl, ht⟩ := readDBI_okMirror h
   rw [if_neg (by simp)] at hfl
   subst hfl
   obtain ⟨h1, h2, _⟩ := readTail_ok ht
@@ -265,7 +265,7 @@ theorem m2sStep_frame {c : Cfg} {txnID now cutoff : Nat} {w w1 : W} {m : Bytes}
     obtain ⟨d, entries, s, _, _, _, _, hw⟩ := m2sStep_ok hp h
     subst hw
     have hne : x ≠ shadowName m := fun he => hx ⟨hp, he⟩
-    simp only [findDbi_setKvs, if_neg hne]
+    simp only [findDbi_setKvsMirror, if_neg hne]
     exact openCreate_find_ne _ _ _ _ hne
 
 theorem m2sStep_distinct {c : Cfg} {txnID now cutoff : Nat} {w w1 : W} {m : Bytes}
@@ -354,7 +354,7 @@ theorem mainToShadow_nondup {c : Cfg} {txnID now cutoff : Nat} {w w' : W} (hdist
   rw [shadowOf_congr d hsd1] at hiu
   refine ⟨s.db, ?_, ?_⟩
   · rw [hfin, hw2]
-    simp only [findDbi_setKvs, if_true, openCreate_find_self, Option.map_some]
+    simp only [findDbi_setKvsMirror, if_true, openCreate_find_self, Option.map_some]
     have := shadowOf_congr d hsd1
     unfold shadowOf at this
     rw [this]; rfl
